@@ -54,6 +54,50 @@ def showIncoming : Incoming → String
 def showComps (l : List QComp) : String :=
   if l.isEmpty then "-" else ",".intercalate (l.map fun c => s!"{c.idx}:{if c.neg then 1 else 0}:{c.mag}")
 
+def parseElem? (s : String) : Option (Except PyErr TrajElem) :=
+  match s.splitOn "|" with
+  | ["S", x, y, z, w] => do
+    let x ← parseQ? x; let y ← parseQ? y; let z ← parseQ? z; let w ← parseQ? w
+    pure (.ok (.start ⟨x, y, z, w⟩))
+  | ["G", d, x, y, z, w] => do
+    let d ← parseQ? d; let x ← parseQs? x; let y ← parseQs? y; let z ← parseQs? z; let w ← parseQs? w
+    pure ((SegObj.new d x y z w).map TrajElem.seg)
+  | _ => none
+
+def showRes (r : Except PyErr (List UInt8)) : String :=
+  match r with
+  | .ok b => toHex b
+  | .error e => s!"E:{e}"
+
+def showResults (rs : List (Except PyErr (List UInt8))) : String :=
+  if rs.isEmpty then "-" else ";".intercalate (rs.map showRes)
+
+def parseLedOp? (w : String) : Option LedOp :=
+  match w.toList with
+  | ['w'] => some .write
+  | 's' :: r =>
+    match (String.ofList r).splitOn ":" with
+    | [i, a, b, c, it] => do
+      let i ← i.toNat?; let a ← a.toInt?; let b ← b.toInt?; let c ← c.toInt?
+      if it == "-" then pure (.set i a b c none) else do
+        let n ← it.toNat?
+        pure (.set i a b c (some n))
+    | _ => none
+  | 'i' :: r =>
+    match (String.ofList r).splitOn ":" with
+    | [i, v] => do pure (.intensity (← i.toNat?) (← v.toNat?))
+    | _ => none
+  | _ => none
+
+def parseTimingOp? (w : String) : Option TimingOp :=
+  match w.toList with
+  | ['w'] => some .write
+  | 'a' :: r =>
+    match parseColon? (String.ofList r) with
+    | some [t, a, b, c, leds, fade, rot] => if fade = 0 ∨ fade = 1 then some (.add ⟨t, a, b, c, leds, fade = 1, rot⟩) else none
+    | _ => none
+  | _ => none
+
 def vec4 (a b c d : Int) : Fin 4 → Int := fun i => [a, b, c, d].getD i.val 0
 
 def step (_ : Unit) (ws : List String) : Unit × String :=
@@ -102,6 +146,30 @@ def step (_ : Unit) (ws : List String) : Unit × String :=
     | ["inc", raw] =>
       match ofHex? raw with
       | some b => showExcept showIncoming (incoming b)
+      | none => "bad-op"
+    | ["packhist", e, n] =>
+      match parseElem? e, n.toNat? with
+      | some (.ok e), some n => s!"ok {showResults (packN e n).2}"
+      | some (.error err), some _ => s!"err {err}"
+      | _, _ => "bad-op"
+    | ["trajhist", n, els] =>
+      match n.toNat?, (els.splitOn "+").mapM parseElem? with
+      | some n, some es =>
+        match es.mapM id with
+        | .ok es => s!"ok {showResults (uploadN es n).2}"
+        | .error err => s!"err {err}"
+      | _, _ => "bad-op"
+    | ["ledhist", ops] =>
+      match (ops.splitOn ",").mapM parseLedOp? with
+      | some ops => s!"ok {showResults (ledRun ledInit ops)}"
+      | none => "bad-op"
+    | ["ledthist", ops] =>
+      match (ops.splitOn ",").mapM parseTimingOp? with
+      | some ops => s!"ok {showResults (timingRun [] ops)}"
+      | none => "bad-op"
+    | ["inchist", raws] =>
+      match (raws.splitOn ",").mapM ofHex? with
+      | some ps => " | ".intercalate ((incomingAll ps).map (showExcept showIncoming))
       | none => "bad-op"
     | ["bitop", op, a, b] =>      -- self-test of the Gen prelude against Python's int operators
       match a.toInt?, b.toInt? with
